@@ -216,6 +216,9 @@ type stub struct {
 	// whatever the mode; noLog: do not record requests (stress phases).
 	probeFail bool
 	noLog     bool
+	// bigSize: in mode up, the reply over TCP is padded to exactly this many
+	// bytes and the reply over UDP is truncated (TC), as a real server does
+	bigSize int
 	// hold: withhold every reply until holdTarget requests have arrived (or
 	// the harness releases them), then send them all at once.
 	holdCh      chan struct{}
@@ -461,6 +464,14 @@ func (s *stub) handle(raw []byte, netw string) [][]byte {
 	if s.probeFail && strings.Contains(req.Question[0].Name, ".hc-") {
 		m = mServfail
 	}
+	if s.bigSize > 0 && m == mUp {
+		size := s.bigSize
+		s.mu.Unlock()
+		if netw == "udp" {
+			return [][]byte{buildReply(mTrunc, req, netw, s.ip, s.nonce)}
+		}
+		return [][]byte{padReply(buildReply(mUp, req, netw, s.ip, s.nonce), size)}
+	}
 	if s.noLog {
 		s.mu.Unlock()
 		return [][]byte{buildReply(m, req, netw, s.ip, s.nonce)}
@@ -604,6 +615,37 @@ func (s *stub) holdEnd() (arrived int, forced bool) {
 	arrived = s.holdArrived
 	s.holdCh = nil
 	return arrived, forced
+}
+
+func (s *stub) setBig(size int) { s.mu.Lock(); s.bigSize = size; s.mu.Unlock() }
+
+// padReply appends one TXT record to the additional section of a packed reply
+// so that the message is exactly size bytes long.
+func padReply(b []byte, size int) []byte {
+	m := new(dns.Msg)
+	if m.Unpack(b) != nil {
+		return b
+	}
+	const over = 11 // root owner + type + class + ttl + rdlength
+	rd := size - len(b) - over
+	if rd < 1 {
+		return b
+	}
+	var txt []string
+	for rd > 0 {
+		n := rd - 1
+		if n > 255 {
+			n = 255
+		}
+		txt = append(txt, strings.Repeat("x", n))
+		rd -= n + 1
+	}
+	m.Extra = append(m.Extra, &dns.TXT{Hdr: dns.RR_Header{Name: ".", Rrtype: dns.TypeTXT, Class: dns.ClassINET, Ttl: 1}, Txt: txt})
+	out, err := m.Pack()
+	if err != nil {
+		return b
+	}
+	return out
 }
 
 func (s *stub) setStress(probeFail, noLog bool) {
@@ -2790,6 +2832,7 @@ func TestCheck(t *testing.T) {
 	if only < 0 && onlyCC < 0 {
 		flipPhase(r)
 		poolBurst(r)
+		bigReplies(r)
 	}
 	if only >= 0 || onlyCC >= 0 {
 		return
@@ -2819,6 +2862,7 @@ func TestCheck(t *testing.T) {
 		"flip_phase_refresh_rounds":                               2000,
 		"flip_phase_queries_answered_by_main":                     2000,
 		"flip_phase_queries_answered_by_fallback":                 2000,
+		"big_replies_answered_by_main":                            8,
 		"pool_bursts_judged":                                      2,
 		"pool_burst_queries_answered_by_main":                     2000,
 		"refreshes_with_production_listener_third_or_later_round": 40,
@@ -3170,4 +3214,67 @@ func refreshWatched(h *forward.Handler, ctx context.Context) (err error, stuck b
 		lines = lines[:24]
 	}
 	return nil, true, strings.Join(lines, "\n")
+}
+
+// ---------------------------------------------------------------------------
+// large valid replies of a healthy main upstream over TCP (tcp:// and, after a
+// truncated UDP reply, the default network): the client must get that reply.
+
+func bigReplies(r *vkit.Run) {
+	sizes := []int{12000, 16384, 16385, 30000, 60000}
+	for ni, netw := range []string{"tcp", "any"} {
+		fx, err := newFixture(1, 1, []string{netw, "any"})
+		if err != nil {
+			r.Bucket("abandoned_no_port", 1)
+			continue
+		}
+		fx.timeout = 2 * time.Second
+		func() {
+			defer fx.close()
+			defer func() {
+				if p := recover(); p != nil {
+					r.Violation("panic:forward-handler", fmt.Sprintf("panic while relaying a large reply: %v", p), map[string]any{"network": netw})
+				}
+			}()
+			if err = fx.setModes(make([]mode, 2)); err != nil {
+				return
+			}
+			fx.newHandler(fmt.Sprintf("big%d", ni), 0, 0)
+			for _, size := range sizes {
+				fx.mains[0].setBig(size)
+				name := fmt.Sprintf("s%d.big%d.c17.verif.test.", size, ni)
+				req, rw, qerr, c0, c1 := fx.doQuery(name, dns.TypeTXT, uint16(size), longCtx)
+				fx.mains[0].setBig(0)
+				if c1.Sub(c0) > fx.timeout*9/10 {
+					r.Bucket("ambiguous_slow_call", 1)
+					continue
+				}
+				rw.mu.Lock()
+				n, resp := rw.n, rw.resp
+				rw.mu.Unlock()
+				w := map[string]any{"network": netw, "reply_size": size, "err": fmt.Sprint(qerr), "responses_written": n}
+				key := ""
+				switch {
+				case qerr != nil || n == 0 || resp == nil:
+					key = "big-reply:valid-reply-of-main-not-delivered:" + netw
+				case replyMismatch(req, resp) != "":
+					key = "reply:accepted-mismatch:" + replyMismatch(req, resp)
+				default:
+					role, _ := identify(resp)
+					resp.Compress = false
+					w["answered_by"], w["delivered_size"] = role, resp.Len()
+					if role != "main" || resp.Truncated || resp.Len() != size {
+						key = "big-reply:valid-reply-of-main-not-delivered:" + netw
+					}
+				}
+				if key != "" {
+					r.Violation(key, "a healthy main upstream sent a valid large reply over TCP, but the client did not get that reply", w)
+					continue
+				}
+				r.Bucket("big_replies_answered_by_main", 1)
+				r.Bucket(fmt.Sprintf("big_replies_answered_by_main:%d", size), 1)
+			}
+			r.Eval("big-replies/"+netw, false)
+		}()
+	}
 }
